@@ -160,3 +160,43 @@ Theorem C04_example_double_far :
 Proof. exact ex_double_far_pointer. Qed.
 Theorem C04_example_place_pre : place_pre ex_before 0 8 1 0 4294967296.
 Proof. exact ex_place_pre. Qed.
+
+(* ------------------------------------------------------------------ read back over the object table *)
+(* For the states the pointer-level invariant [hinv] describes (reachable states of the C05
+   sub-language, coq/Core/HeapOps.v), the message is an abstract store: table object -> bytes
+   of its region, pointer slot -> resolved target. *)
+From CV Require Import Core.HeapProofs Core.HeapInv.
+
+(* [T16] a data setter (a write inside one table object, beside its pointer slots): the written
+   bytes are read back; every byte outside the written range, in every segment, is unchanged -
+   so is the data of every other object -; every pointer slot and the root resolve as before *)
+Theorem C04_read_back_data : forall m objs pads m' h addr bs,
+  hinv m objs pads -> In h objs -> 0 <= p_seg h ->
+  wrote m m' (p_seg h) addr bs ->
+  p_off h <= addr -> addr + zlen bs <= obj_start h + r_size (obj_reg h) ->
+  (forall q, In q (slots h) -> addr + zlen bs <= snd q \/ snd q + 8 <= addr) ->
+  slice (mem m' (p_seg h)) addr (zlen bs) = Ok bs /\
+  keeps m m' (fun i k => i = p_seg h /\ addr <= k < addr + zlen bs) /\
+  (forall q, In q ((0, 0) :: flat_map slots objs) ->
+     resolve_ptr (bm_data m') (fst q) (snd q) = resolve_ptr (bm_data m) (fst q) (snd q)).
+Proof. exact data_write_read_back. Qed.
+Print Assumptions C04_read_back_data.
+
+(* [T17] a pointer setter without copy (any slot of any table object or the root, any table
+   object as target, all three placements): the slot resolves to exactly the target object,
+   through the pads just allocated; every byte of the old segments except the slot word is
+   unchanged (all object data); every other pointer slot resolves as before *)
+Theorem C04_read_back_ptr : forall m objs pads w q ht raw w',
+  w_dst w = m -> hinv m objs pads ->
+  In q ((0, 0) :: flat_map slots objs) -> In ht objs ->
+  (p_kind ht = KStruct -> os_isZero (p_size ht) = false) ->
+  raw_of ht = Ok raw ->
+  place w (fst q) (snd q) (p_seg ht) (obj_start ht) raw = Ok w' ->
+  nsegs (w_dst w') < 4294967296 ->
+  exists pads', hinv (w_dst w') objs (pads ++ pads') /\
+    resolve_ptr (bm_data (w_dst w')) (fst q) (snd q) = (tgt_of ht, pads' ++ [obj_reg ht]) /\
+    keeps m (w_dst w') (Rword (fst q) (snd q)) /\
+    (forall q', In q' ((0, 0) :: flat_map slots objs) -> ~ (fst q' = fst q /\ snd q' = snd q) ->
+       resolve_ptr (bm_data (w_dst w')) (fst q') (snd q') = resolve_ptr (bm_data m) (fst q') (snd q')).
+Proof. exact hinv_place_full. Qed.
+Print Assumptions C04_read_back_ptr.
